@@ -6,12 +6,13 @@ from engine_m import exec as X
 from engine_m.session import Binding
 from engine_k import runner as K
 
-EVIDENCE = dict(assumptions=['kernel only (narrow): AttributionData array layout (shift_left/shift_right/hold times/HMAC slots) (Kani); the order in which the final hop of a payment builds its fulfil attribution data in ChannelManager::claim_payment_internal (region of the claim loop, process_fulfill_attribution_data a recording stub; engine M); the HMAC position at which the sender verifies each hop of the attribution data of a fulfil (decode_fulfill_attribution_data, path length <= 27, HMAC verification / decryption stubs; engine M); onion construction and peeling, HMAC/ChaCha/ECDH and failure-code attribution are cryptographic or 1300-byte-buffer bound and outside the claim'])
+EVIDENCE = dict(assumptions=['kernel only (narrow): AttributionData array layout (shift_left/shift_right/hold times/HMAC slots) (Kani); the order in which the final hop of a payment builds its fulfil attribution data in ChannelManager::claim_payment_internal (region of the claim loop, process_fulfill_attribution_data a recording stub; engine M); the HMAC position at which the sender verifies each hop of the attribution data of a fulfil (decode_fulfill_attribution_data, path length <= 27, HMAC verification / decryption stubs; engine M); the record order of the TLV stream <OutboundOnionPayload as Writeable>::write produces, per variant, leaf values and lengths abstracted, <= 2 (quick) / 3 (thorough) custom TLVs (engine M); onion construction and peeling, HMAC/ChaCha/ECDH and failure-code attribution are cryptographic or 1300-byte-buffer bound and outside the claim'])
 
 
 def run(S):
     final_hop_attribution(S, S.decls())
     fulfill_decode_positions(S, S.decls())
+    payload_tlv_order(S, S.decls())
     K.run_property(S, 'C14')
 
 
@@ -221,3 +222,138 @@ def fulfill_decode_positions(S, D):
     S.no_panic(ids[1], E, [], 'the position arithmetic cannot underflow', [attribution_binding(z3.BoolVal(False))])
     S.witness(ids[2], E, [n.t == 27, all_ok], n_push == MAXH)
     S.validate('C14.p.validate', E, attribution_binding(z3.BoolVal(True)), n=1, extra_vectors=[(27,)])
+
+
+def payload_order_binding(blinded, args, claim, panic):
+    """replay / validation (oracle final_onion_payload_order, hook msgs::verif_hooks::final_onion_payload_bytes): the real
+    writer on a final-hop payload with the given custom TLV types, keysend preimage and invoice request; the bytes are
+    parsed as a TLV stream by the oracle: 1 iff the types are strictly increasing and every requested record is there"""
+    c = claim if z3.is_expr(claim) else X.zbool(claim)
+    return Binding('final_onion_payload_order', [z3.IntVal(blinded)] + args, [z3.If(c, 1, 0)], panic=panic,
+                   domain=[(blinded, blinded), (0, 1), (0, blinded), (0, 3), (65536, U64M), (65536, U64M), (65536, U64M)],
+                   interesting=[65536, 65537, 77776, 77777, 77778, 5482373483, 5482373484, 5482373485], via_solver=True)
+
+
+U64M = (1 << 64) - 1
+KEYSEND_T, INVREQ_T = 5482373484, 77777
+
+
+def payload_tlv_order(S, D):
+    """C14.q: the per-hop payload a sender writes into the onion is a TLV stream whose record types are strictly increasing
+    (BOLT 1; every decoder - LDK's own `decode_tlv_stream!` included - refuses a stream that is not, so a hop that gets
+    one cannot read its instructions). `<OutboundOnionPayload as Writeable>::write` from its MIR, one run per variant: the
+    fixed records come from the macro's field list, the final-hop variants append the sender's custom TLVs, the keysend
+    preimage (type 5482373484) and, for a blinded recipient, the invoice request (type 77 777) - merged by a sort."""
+    from .tlv_stream import TlvStream, find_fn
+    fw = find_fn(S, r"::write\(_1: &(?:\w+::)*OutboundOnionPayload<'_>, _2: &mut W\)")
+    NC = 2 if S.tier == 'quick' else 3
+    variants = D.enum_variants('OutboundOnionPayload')
+    for vi, (vname, _, fields) in enumerate(variants):
+        ids = ['C14.q.%s.%s' % (vname.lower(), k) for k in ('types_strictly_increasing', 'nopanic', 'witness', 'validate')]
+        if all(S._skip(o) for o in ids):
+            continue
+        E = S.engine(unwind=NC + 5)
+        E.slice_cap = NC
+        mem = {}
+        T = TlvStream(E, D)
+        T.symbolic_types = True
+        T.install_writer()
+
+        def key_of(v, mem_, guard):
+            while isinstance(v, X.Ref):
+                v = E.read_path(mem_[v.cell], v.path, mem_, guard, 'sortkey')
+            if not isinstance(v, X.Tup):
+                raise X.Unsupported('custom TLV entry %r' % (v,))
+            return X.zint(v.fs[0].t)
+
+        def h_sort(E_, m, func, argv, guard, mem_, dty, caller, E=E, key_of=key_of):
+            """slice::sort_unstable_by_key(|(typ, _)| *typ) on the collected `Vec<&(u64, Vec<u8>)>`: a bubble-sort network
+            of compare-exchanges over (present, entry) pairs, absent slots ranking last. The elements are shared
+            references into different places (the caller's list, the two Option temporaries): each referent is
+            re-homed in a cell of its own so that a compare-exchange merges VALUES, not references."""
+            r_ = argv[0]
+            s_ = E.read_path(mem_[r_.cell], r_.path, mem_, guard, 'sort')
+            if not isinstance(s_, X.Seq):
+                raise X.Unsupported('sort of %r' % (s_,))
+            el = []
+            for p, e in zip(s_.pres, s_.elems):
+                if X.simp(p) is False:
+                    continue
+                v = e
+                while isinstance(v, X.Ref):
+                    v = E.read_path(mem_[v.cell], v.path, mem_, guard, 'sort')
+                el.append((X.zbool(p), v))
+            BIG = z3.IntVal(1 << 64)
+            key = lambda pe: z3.If(pe[0], key_of(pe[1], mem_, guard), BIG)
+            for a_ in range(len(el)):
+                for b_ in range(len(el) - 1 - a_):
+                    c_ = key(el[b_]) <= key(el[b_ + 1])
+                    x, y = el[b_], el[b_ + 1]
+                    el[b_] = (z3.If(c_, x[0], y[0]), E.merge(c_, x[1], y[1]))
+                    el[b_ + 1] = (z3.If(c_, y[0], x[0]), E.merge(c_, y[1], x[1]))
+            n = sum([z3.If(p, 1, 0) for p, e in el], z3.IntVal(0))
+            refs = []
+            for p, v in el:
+                c = E.new_cell()
+                mem_[c] = v
+                refs.append(X.Ref(c))
+            mem_[r_.cell] = E.write_path(mem_[r_.cell], r_.path, X.Seq(refs, n, s_.ety), mem_, guard, 'sort')
+            return X.UNIT
+        for rx, h in [
+            (r'sort_unstable_by_key::<u64, ', h_sort),
+            (r' as (?:util::ser::)?Writeable>::encode$', lambda *a: X.Opaque('encoded bytes')),
+        ]:
+            E.models.insert(0, (re.compile(rx), h))
+        pl = E.sym('pl', "&fuzzy_internal_msgs::OutboundOnionPayload<'_>", mem)
+        mem[pl.cell] = X.En(mem[pl.cell].name, vi, {}, base=mem[pl.cell].base)       # one run per variant
+        wcell = E.new_cell()
+        mem[wcell] = X.Opaque('writer')
+        wr = S.call(E, fw, [pl, X.Ref(wcell)], mem)
+        w_ok = z3.And(S.ret_guard, X.zint(wr.d) == 0)
+        import os
+        if os.environ.get('C14Q_DEBUG'):
+            print(vname, [(c[0], c[2] if c[0] == 'leaf' else '') for c in T.calls])
+        recs = T.finish_writer()
+        tz = lambda t: z3.IntVal(t) if isinstance(t, int) else t
+        incr = [z3.Implies(z3.And(recs[i]['p'], recs[j]['p']), tz(recs[i]['t']) < tz(recs[j]['t'])) for i in range(len(recs)) for j in range(i + 1, len(recs))]
+        pre, args, bind = [], None, []
+        present = []           # what must be written
+        if 'custom_tlvs' in fields:
+            # what the public API lets a sender hand in: RecipientCustomTlvs::new - types strictly increasing, in the
+            # custom range, none of the two experimental types LDK itself writes
+            cf = fields.index('custom_tlvs')
+            cref = E.en_payload(mem[pl.cell], vname, vi, cf, '&std::vec::Vec<(u64, std::vec::Vec<u8>)>', mem, 'spec')
+            cseq = E.read_path(mem[cref.cell], cref.path, mem, True, 'spec')
+            n = X.zint(cseq.n)
+            ct = [X.zint(E.read_path(cseq.elems[i], (('f', 0, 'u64'),), mem, True, 'spec').t) for i in range(NC)]
+            for i in range(NC):
+                pre.append(z3.Implies(n > i, z3.And(ct[i] >= 65536, ct[i] != KEYSEND_T, ct[i] != INVREQ_T)))
+                if i:
+                    pre.append(z3.Implies(n > i, ct[i - 1] < ct[i]))
+                present.append(z3.Implies(n > i, z3.Or(*[z3.And(r['p'], tz(r['t']) == ct[i]) for r in recs])))
+            ks = E.en_payload(mem[pl.cell], vname, vi, fields.index('keysend_preimage'), 'Option<types::payment::PaymentPreimage>', mem, 'spec')
+            ks_some = X.zint(ks.d) == 1
+            present.append(z3.Implies(ks_some, z3.Or(*[z3.And(r['p'], tz(r['t']) == KEYSEND_T) for r in recs])))
+            blinded = 'invoice_request' in fields
+            if blinded:
+                ir = E.en_payload(mem[pl.cell], vname, vi, fields.index('invoice_request'), 'Option<&InvoiceRequest>', mem, 'spec')
+                ir_some = X.zint(ir.d) == 1
+                present.append(z3.Implies(ir_some, z3.Or(*[z3.And(r['p'], tz(r['t']) == INVREQ_T) for r in recs])))
+            else:
+                ir_some = z3.BoolVal(False)
+            args = [z3.If(ks_some, 1, 0), z3.If(ir_some, 1, 0), n] + (ct + [z3.IntVal(65536)] * 3)[:3]
+            bind = [payload_order_binding(1 if blinded else 0, args, z3.And(w_ok, *incr, *present), _panic(E))]
+        S.prove(ids[0], E, pre, z3.And(w_ok, *incr, *present),
+                'OutboundOnionPayload::%s is written as a TLV stream with strictly increasing record types%s' % (vname, ', containing every custom TLV handed in, the keysend preimage and the invoice request when given, wherever their type numbers fall relative to each other' if bind else ''),
+                bind, bounds='record stream: %d records (types %s); <= %d custom TLVs with any types RecipientCustomTlvs::new accepts; values and lengths abstracted' % (len(recs), ', '.join(str(r['t']) if isinstance(r['t'], int) else 'custom' for r in recs), NC),
+                assumptions=['custom TLVs as RecipientCustomTlvs::new leaves them: sorted, unique, >= 65536, not 5482373484 / 77777'] if bind else None)
+        S.no_panic(ids[1], E, pre, 'the debug-build order check of the encode macro (_check_encoded_tlv_order!) cannot fire', bind)
+        if bind:
+            S.witness(ids[2], E, pre + [n == NC, ks_some, ct[NC - 1] > KEYSEND_T] + ([ir_some, ct[0] < INVREQ_T] if blinded else []), w_ok)
+            S.validate(ids[3], E, bind[0], n=60 if S.tier == 'quick' else 200)
+        else:
+            S.witness(ids[2], E, pre, w_ok)
+
+
+def _panic(E):
+    return z3.Or(*[X.zbool(p[0]) for p in E.panics]) if E.panics else False
